@@ -34,6 +34,8 @@ Checks(e) ==
   LET st == Steps(e.c) IN
   { <<"no-panic", e.panic = "">>,
     <<"ill-formed-source-rejected", MustReject(e.c) => ~e.ok>>,
+    <<"accepted-field-ids-are-unique", (e.ok /\ e.c.ctx \in {"fields-strict", "fields-nonstrict"}) =>
+         \A a, b \in 1..Len(e.nums) : a # b => e.nums[a] # e.nums[b]>>,
     \* accepted => every compiled number is the number written (or implied) and fits its type
     <<"numbers-equal-source-and-in-range", (e.ok /\ ~MustReject(e.c)) =>
          /\ Len(e.nums) = Len(st)
